@@ -17,7 +17,8 @@ import numpy
 from common import Check, Driver, Infra, VERIF, sarpy_guard
 
 REQUIRED = ['eval_pass', 'eval_shift0', 'eval_scale', 'eval_shift', 'eval_eq', 'toPoly_der', 'eval_derN',
-            'eval_minimize', 'minimize_nonempty', 'eval2_minimize2', 'minimize2_nonempty', 'eval_take', 'eval2_shift02', 'eval2_scaleRowsAux', 'eval2_map_rows', 'xyz_shift']
+            'eval_minimize', 'minimize_nonempty', 'eval2_minimize2', 'minimize2_nonempty', 'eval_take', 'eval2_shift02', 'eval2_scaleRowsAux', 'eval2_map_rows', 'xyz_shift',
+            'xyzEvalFlat_length', 'xyzEvalFlat_get', 'xyzEvalFlat_single', 'xyzDerEvalFlat_get']
 EPS = 2.0 ** -52
 
 
@@ -139,6 +140,19 @@ def run(tier):
             feats.add(('min2', pat))
             which = rng.choice(['Poly2DType', 'GainPhasePoly', 'GainPhasePoly-cphd'])
             jobs.append(('min2', (mrows, which), drv.ask('poly min2 ' + ';'.join(qs(row) for row in mrows))))
+    # vector polynomials on array arguments of every rank (XYZPolyType.__call__ / derivative_eval): result shape t.shape + (3,),
+    # row-major entry (i, c) = component c at point i (theorems xyzEvalFlat_length / xyzEvalFlat_get / xyzDerEvalFlat_get)
+    XYZ_SHAPES = [(), (1,), (5,), (2, 3), (3, 2), (4, 3), (3, 3), (1, 1), (2, 1, 3), (2, 2, 2), (0,), (2, 0)]
+    for _ in range(24 if tier == 'quick' else 400):
+        cs = [rand_coefs(rng, rng.choice([1, 2, 3, 5])) for _ in range(3)]
+        sh = rng.choice(XYZ_SHAPES)
+        npts = 1
+        for d_ in sh:
+            npts *= d_
+        ts = [rand_float(rng, rng.choice(['int', 'small'])) for _ in range(npts)]
+        d = rng.choice([0, 0, 1, 2])
+        feats.add(('xyzarr', len(sh), d))
+        jobs.append(('xyzarr', (cs, sh, ts, d), drv.ask(f'poly xyz {d} {qs(cs[0])} {qs(cs[1])} {qs(cs[2])} {qs(ts)}')))
     try:
         ans = drv.run()
     except Infra as e:
@@ -313,6 +327,39 @@ def run(tier):
                             mv = model[i_][j]
                             if abs(Fraction(float(out[i_, j])) - mv) > Fraction(256.0 * (r * k + 2) ** 2 * EPS) * (abs(mv) + sum(abs(Fraction(v)) for row in rows for v in row) * (1 + abs(Fraction(s1))) ** r * (1 + abs(Fraction(s2))) ** k * (1 + abs(Fraction(a1))) ** r * (1 + abs(Fraction(a2))) ** k):
                                 note(kind, payload, f'model shift2[{i_}][{j}] = {float(mv)!r} vs implementation {float(out[i_, j])!r}', False)
+            if kind == 'xyzarr':
+                cs, sh, ts, d = payload
+                P = XYZPolyType(X=cs[0], Y=cs[1], Z=cs[2])
+                arr = numpy.array(ts, dtype='float64').reshape(sh) if sh else float(ts[0])
+                got = P(arr) if d == 0 else P.derivative_eval(arr, der_order=d)
+                if d == 0 and rng.random() < 0.5:
+                    got2 = P.derivative_eval(arr, der_order=0)
+                    if numpy.shape(got2) != numpy.shape(got) or not numpy.array_equal(numpy.asarray(got2), numpy.asarray(got)):
+                        note(kind, payload, 'XYZ derivative_eval of order 0 differs from evaluation', True)
+                if numpy.shape(got) != tuple(sh) + (3,):
+                    note(kind, payload, f'XYZ {"evaluation" if d == 0 else "derivative_eval"} of an argument of shape {tuple(sh)} returns shape {numpy.shape(got)}, expected {tuple(sh) + (3,)}', True)
+                else:
+                    flat = numpy.ravel(numpy.asarray(got, dtype='float64'))
+                    for i_, t in enumerate(ts):
+                        for ax, c in enumerate(cs):
+                            ex = list(map(Fraction, c))
+                            for _k in range(d):
+                                ex = [k * ex[k] for k in range(1, len(ex))] or [Fraction(0)]
+                            want = sum(ck * Fraction(t) ** k for k, ck in enumerate(ex))
+                            m = close(float(flat[3 * i_ + ax]), want, sum(abs(ck) * abs(Fraction(t)) ** k for k, ck in enumerate(ex)), len(c) + 2,
+                                      f'XYZ array argument of shape {tuple(sh)}: entry (point {i_}, component {ax}), derivative order {d}')
+                            if m:
+                                note(kind, payload, m, True)
+                                break
+                    if ans is not None:
+                        model = parse_qs(ans[i])
+                        if len(model) != flat.size:
+                            note(kind, payload, f'model returns {len(model)} values, implementation {flat.size}', False)
+                        else:
+                            for k_, mv in enumerate(model):
+                                if abs(Fraction(float(flat[k_])) - mv) > Fraction(1e-9) * (1 + abs(mv)):
+                                    note(kind, payload, f'model entry {k_} = {float(mv)!r} vs implementation {float(flat[k_])!r}', False)
+                                    break
         except Exception as e:
             note(kind, payload, f'raised {type(e).__name__}: {e}', True)
 
@@ -350,7 +397,7 @@ def run(tier):
         'distinct_nontrivial': len(feats),
         'rule': 'random coefficient arrays (orders 0..12; integer, small, wide-range and special values; trailing zeros; all-zero) x '
                 'shift/scale parameters incl. the 0 and 1 fast paths x derivative orders 0..5 x argument shapes (), (3,), (2,2); '
-                '2-D arrays up to 4x5; XYZ polynomials; distinct = distinct (order, t0==0, alpha==1, derivative order) / 2-D (shape, fast-path flags) tuples; '
+                '2-D arrays up to 4x5; XYZ polynomials on scalar and array arguments of rank 0..3 (incl. empty and (n,3) shapes), evaluation and derivative_eval; distinct = distinct (order, t0==0, alpha==1, derivative order) / 2-D (shape, fast-path flags) tuples; '
                 'comparison in exact rationals with a running-error bound',
         'samples': [f'poly shift {q(1.5)} {q(2.0)} {qs([1.0, -4.0, 0.0, 5.0])}'] + [j[0] + ' ' + json.dumps(j[1])[:160] for j in jobs[:2]],
         'traces_validated_against_impl': evaluations,
